@@ -13,6 +13,7 @@
 //!                  current locale > Accept-Language > default
 
 use std::borrow::Cow;
+use std::cell::RefCell;
 
 use leptos::prelude::*;
 use leptos_i18n::context::{
@@ -250,10 +251,11 @@ fn eval(case: &Case) -> CaseResult {
     if !e.admissible.contains(&got) {
         // name the source that was wrongly preferred, if any
         let winner = e.sources.iter().find(|(_, m)| m.contains(&got)).map(|(s, _)| *s);
-        let signature = match (e.decided_by, winner) {
-            (d, Some(w)) => format!("{w}-overrides-{d}"),
-            (d, None) if got == Locale::default() => format!("default-instead-of-{d}"),
-            (d, None) => format!("unexplained-locale-instead-of-{d}"),
+        // "<lower source>-overrides-<deciding source>", or "<deciding source>-ignored" when the result is
+        // proposed by no source at all (default, or a value that should not have been trusted)
+        let signature = match winner {
+            Some(w) => format!("{w}-overrides-{}", e.decided_by),
+            None => format!("{}-ignored", e.decided_by),
         };
         let kind = match &case.kind {
             Kind::Main { .. } => "main",
@@ -363,16 +365,15 @@ fn lang_headers() -> Vec<Option<String>> {
     .collect()
 }
 
-fn factorial(ctx: &mut Ctx) {
+fn factorial(ctx: &mut Ctx, reported: &RefCell<Vec<String>>) {
     let cookies = cookie_headers();
     let langs = lang_headers();
     let opt_locales: Vec<Option<Locale>> = std::iter::once(None).chain(LOCALES.iter().copied().map(Some)).collect();
-    let mut reported: Vec<String> = vec![];
     let mut handle = |ctx: &mut Ctx, case: Case| match eval(&case) {
         Ok(info) => ctx.record(info),
         Err(f) => {
-            if !reported.contains(&f.signature) {
-                reported.push(f.signature.clone());
+            if !reported.borrow().contains(&f.signature) {
+                reported.borrow_mut().push(f.signature.clone());
                 ctx.fail("factorial", None, &f);
             }
             ctx.add_extra_count(&format!("cases_failing[{}]", f.signature), 1);
@@ -482,19 +483,32 @@ fn gen_case(t: &mut Tape) -> Case {
     Case { cookie_header, lang_header, kind }
 }
 
-fn random_case(t: &mut Tape) -> CaseResult {
+fn random_case(t: &mut Tape, reported: &RefCell<Vec<String>>) -> CaseResult {
     let case = gen_case(t);
-    let mut r = eval(&case)?;
-    r.classes.push("random-headers".to_string());
-    Ok(r)
+    match eval(&case) {
+        Ok(mut r) => {
+            r.classes.push("random-headers".to_string());
+            Ok(r)
+        }
+        // already reported (with a replayable case) by the factorial part: keep exploring
+        Err(f) if reported.borrow().contains(&f.signature) => Ok(CaseInfo {
+            hash: hash_str(&serde_json::to_string(&case.to_json()).unwrap_or_default()),
+            nontrivial: false,
+            classes: vec![format!("masked[{}]", f.signature)],
+            sample: None,
+            observations: 0,
+        }),
+        Err(f) => Err(f),
+    }
 }
 
 pub fn run(mut ctx: Ctx) -> ! {
     crate::exec::init();
+    let reported: RefCell<Vec<String>> = RefCell::new(vec![]);
     if let Some(path) = ctx.replay.clone() {
         let engine = Ctx::replay_engine(&path).unwrap_or_default();
         if engine == "rand" {
-            ctx.replay_tape("rand", &path, random_case);
+            ctx.replay_tape("rand", &path, |t| random_case(t, &reported));
         } else {
             match std::fs::read_to_string(&path)
                 .ok()
@@ -511,14 +525,14 @@ pub fn run(mut ctx: Ctx) -> ! {
             }
         }
     } else {
-        factorial(&mut ctx);
+        factorial(&mut ctx, &reported);
         ctx.set_exhaustive(true);
         ctx.set_extra(
             "exhaustive_domain",
             json!("53 Cookie headers x 15 Accept-Language headers x ( {cookies on/off} x {default, custom cookie name} x {context, resolve_locale_with_options}  +  sub-context: {no cookie name, default, custom} x {no parent, parent in en/fr/de} x {no initial_locale, en/fr/de} )"),
         );
         let cases = ctx.tier.scale(300_000, 5_000_000);
-        ctx.run_tapes("rand", cases, 48, random_case);
+        ctx.run_tapes("rand", cases, 48, |t| random_case(t, &reported));
     }
     ctx.finish(
         "(1) full factorial: Cookie header {absent, empty, other cookies only, <name>=<value> alone or between other \
